@@ -78,6 +78,30 @@ def compare (a b : MA) : Bool :=
     e.2.length == ((lookup e.1 ta).getD []).length &&
     e.2.all (fun x => val x.2 == qty a e.1 x.1))
 
+
+-- ------------------------------------------------------------------ fixed-width instantiations
+
+/-- `uint64` arithmetic: results are taken modulo 2^64 -/
+def wrapU64 (x : Int) : Int := x % 18446744073709551616
+
+/-- `int64` arithmetic: two's complement wrap -/
+def wrapS64 (x : Int) : Int := (x + 9223372036854775808) % 18446744073709551616 - 9223372036854775808
+
+/-- inner loop of `Add` for `MultiAsset[int64]` / `MultiAsset[uint64]`: `addAmounts` is the machine
+    addition, i.e. integer addition followed by the wrap `w` -/
+def addInnerW (w : Int → Int) (p : Bytes) (m : MA) (inner : Inner) : MA :=
+  inner.foldl (fun m e => setAsset m p e.1 (some (w (qty m p e.1 + val e.2)))) m
+
+/-- `MultiAsset[T].Add` for a fixed-width `T` with wrap `w` (`add` is the case `w = id`) -/
+def addW (w : Int → Int) (a b : MA) : MA := b.foldl (fun m e => addInnerW w e.1 m e.2) a
+
+/-- every stored amount is a value of the fixed-width type (non-nil, in range) -/
+def allAmounts (P : Int → Bool) (m : MA) : Bool :=
+  m.all (fun e => e.2.all (fun x => match x.2 with | none => false | some i => P i))
+
+def isInt64 (i : Int) : Bool := decide (-9223372036854775808 ≤ i) && decide (i ≤ 9223372036854775807)
+def isUint64 (i : Int) : Bool := decide (0 ≤ i) && decide (i ≤ 18446744073709551615)
+
 -- ------------------------------------------------------------------ CBOR
 
 /-- `*big.Int` under BigIntConvertShortest; nil pointer = CBOR null -/
